@@ -110,8 +110,10 @@ CLAIMS = {
              'wrapper of a model trait forwards every method. FP-SIB / BW-SIB: the debug-only cross-checks compare the production '
              'result with the same computation on the same arguments. Site discharge also uses linear entailment with '
              'quotient/remainder facts and the documented monotone tables; a site relocated into / out of a private helper, or an '
-             '.expect() that fails exactly when a vetted panic!() did, keeps its vetted invariant. Positive/negative controls on a '
-             'fixtures crate run every time. Not decided: that the vetted invariants hold; floating point.',
+             '.expect() that fails exactly when a vetted panic!() did, keeps its vetted invariant. TINV: the one type invariant the '
+             'discharge uses (the delta-min vector of arrival::Curve is never empty) is decided, not assumed: every construction '
+             'provides a non-empty literal or an unconditional assert, and afterwards the vector is only extended. '
+             'Positive/negative controls on a fixtures crate run every time. Not decided: that the vetted invariants hold; floating point.',
         ref='7/C20'),
     'C09': dict(
         technique='linear entailment over guarded cases (polyhedral reasoning with quotient/remainder facts) for the algebraic laws; canonical function summaries vs reviewed references; one-iteration loop summary of the generic inverse',
